@@ -102,7 +102,7 @@ func (fr *Frame) doCall(c *ssa.CallCommon, site ssa.Instruction, st *State, preA
 		key := ifaceMethodKey(c.Value.Type(), c.Method.Name())
 		all := append([]Term{recv}, args...)
 		fr.checkGuardedInvoke(c, st, pos)
-		if ct := u.cs.ByKey[key]; ct != nil {
+		if ct := u.lookupContract(key); ct != nil {
 			return fr.applyContract(ct, key, c.Method.Type().(*types.Signature), nil, all, c.Value.Type(), st, pos, fr.closureArgs(c))
 		}
 		if pureIfaceMethod(c.Value.Type(), c.Method.Name()) {
@@ -131,11 +131,24 @@ func (fr *Frame) doCall(c *ssa.CallCommon, site ssa.Instruction, st *State, preA
 	return fr.callDynamic(fv, c, args, st, site)
 }
 
-func (fr *Frame) closureArgs(c *ssa.CallCommon) map[int]*ssa.MakeClosure {
-	m := map[int]*ssa.MakeClosure{}
+// closureVal is a closure value whose code and captured variables are known (created in this unit).
+type closureVal struct {
+	fn    *ssa.Function
+	binds []Term
+	mc    *ssa.MakeClosure
+	frame *Frame
+}
+
+// closureArgs finds the arguments that are known closures (by the term of the closure value, so that closures
+// returned from inlined helpers are found as well).
+func (fr *Frame) closureArgs(c *ssa.CallCommon) map[int]*closureVal {
+	m := map[int]*closureVal{}
 	for i, a := range c.Args {
-		if mc, ok := a.(*ssa.MakeClosure); ok {
-			m[i] = mc
+		if _, isFn := a.Type().Underlying().(*types.Signature); !isFn {
+			continue
+		}
+		if cv, ok := fr.u.closureTerms[fr.val(a).S]; ok {
+			m[i] = cv
 		}
 	}
 	return m
@@ -200,9 +213,9 @@ func (fr *Frame) callFunction(fn *ssa.Function, args []Term, binds []Term, st *S
 			return res, st2
 		}
 	}
-	ct := u.cs.ByKey[key]
+	ct := u.lookupContract(key)
 	if ct != nil && !ct.Inline {
-		var cl map[int]*ssa.MakeClosure
+		var cl map[int]*closureVal
 		if call, ok := site.(ssa.CallInstruction); ok {
 			cl = fr.closureArgs(call.Common())
 		}
@@ -484,6 +497,11 @@ func (fr *Frame) execMakeClosure(x *ssa.MakeClosure, st *State) *State {
 		u.setHeap(st, key, Store(hb, a, fr.val(b)))
 	}
 	fr.setReg(x, a)
+	var binds []Term
+	for _, b := range x.Bindings {
+		binds = append(binds, fr.val(b))
+	}
+	u.closureTerms[fr.regs[x].S] = &closureVal{fn: fn, binds: binds, mc: x, frame: fr}
 	return st
 }
 
@@ -838,7 +856,30 @@ func (fr *Frame) execRange(x *ssa.Range, st *State) *State {
 		fr.checkGuardedMapOp(x.X, false, st, x.Pos())
 	}
 	fr.regs[x] = fr.val(x.X) // the iterator is identified with the collection
+	if mt, ok := x.X.Type().Underlying().(*types.Map); ok {
+		// ghost set of keys already delivered by this iteration: "visitedN" (N = ordinal of the range loop)
+		if name := fr.visitedName(x); name != "" {
+			ks := fr.u.w.sortOf(mt.Key())
+			st.ghost[name] = Term{fmt.Sprintf("((as const %s) false)", ArraySort(ks, SBool)), ArraySort(ks, SBool)}
+		}
+	}
 	return st
+}
+
+// visitedName: ghost name of the visited-set of a map range loop ("visitedN", N = loop ordinal), "" if unknown.
+func (fr *Frame) visitedName(rng *ssa.Range) string {
+	refs := rng.Referrers()
+	if refs == nil {
+		return ""
+	}
+	for _, r := range *refs {
+		if nx, ok := r.(*ssa.Next); ok {
+			if ord, ok := fr.loopOrd[nx.Block()]; ok {
+				return fmt.Sprintf("visited%d", ord)
+			}
+		}
+	}
+	return ""
 }
 
 func (fr *Frame) execNext(x *ssa.Next, st *State) *State {
@@ -860,6 +901,15 @@ func (fr *Frame) execNext(x *ssa.Next, st *State) *State {
 	k := u.fresh(fr.vname(x)+".k", w.sortOf(mt.Key()))
 	vs := w.sortOf(mt.Elem())
 	u.assume(True, Implies(ok, And(Neq(m, NilLoc), Select(dom, k, SBool))))
+	if name := fr.visitedName(rng); name != "" {
+		if vis, has := st.ghost[name]; has {
+			// each key is delivered at most once; when the iteration ends every key of the map has been delivered
+			u.assume(True, Implies(ok, Not(Select(vis, k, SBool))))
+			kq := Sym("k!v", w.sortOf(mt.Key()))
+			u.assume(True, Implies(And(st.pc, Not(ok), Neq(m, NilLoc)), Forall([]Term{kq}, Implies(Select(dom, kq, SBool), Select(vis, kq, SBool)))))
+			st.ghost[name] = u.define("vis", Ite(ok, Store(vis, k, True), vis))
+		}
+	}
 	v := Select(val, k, vs)
 	_ = tup
 	vv := u.define(fr.vname(x)+".v", v)
